@@ -39,3 +39,7 @@ def fill(claim, not_yet):
 		'Generated modules over the Python-compatible productions of data/grammar.lark and every repository module both parsers accept are loaded through the real Entrypoints/NodeResolver; grouping, chaining, call arguments, slices, literals, comprehensions, statement nesting, parameters/defaults/annotations, decorators, bases and the classification of defs and of binding vs referencing occurrences are compared with what ast.parse says.',
 		'Trusted: CPython ast, vf/oracle/nodecanon.py. One open finding (chained assignment) is kept out of the random workload by a generator switch and exercised by its committed witness on every run.',
 		'DESIGN.md §4 C02')
+	claim('C09', 'exploration', 'runtime monitoring: identity-valued Procedure runs (handler arguments compared with the node\'s own properties, nested exec from inside handlers) and a shadow-stack monitor interposed on Procedure.exec/__run_action during real Py2Cpp and Reflections runs',
+		'For every node visited the keyword arguments the real Procedure hands to the handler are compared, by node identity, with what the node\'s declared expandable properties yield (keys, single vs list, order); processing must end with exactly the root; nested exec() calls started inside handlers must return their own root and leave the outer stacks untouched. The same invariant is asserted by a shadow stack riding along real transpiles of the fixtures and examples (and, through vf.mon.procedure, along the workloads of other checks).',
+		'Trusted: vf/mon/procedure.py (the monitor only observes; it never changes results).',
+		'DESIGN.md §4 C09')
